@@ -92,6 +92,23 @@ Proof.
   rewrite (cl_run_done r _ Hr); [reflexivity|]. apply cl_step_inv. exact I0.
 Qed.
 
+(* ================================================================== 2b. reply channel *)
+Lemma rq_inv sched : forall s, q_panic s = false -> (q_closed s = true -> q_replied s = true) ->
+  q_panic (fold_left (rq_step true) sched s) = false.
+Proof.
+  induction sched as [|e sched IH]; intros s Hp Hc; cbn [fold_left]; auto.
+  apply IH; destruct e; cbn [rq_step orb]; auto.
+  - destruct (q_taken s && negb (q_replied s)) eqn:E; auto.
+    apply andb_true_iff in E. destruct E as [_ E]. apply negb_true_iff in E.
+    destruct (q_closed s) eqn:C; [rewrite (Hc eq_refl) in E; discriminate|exact Hp].
+  - destruct (q_taken s && negb (q_replied s)); auto. destruct (q_closed s); reflexivity.
+Qed.
+
+(* a Send that returns only by receiving the reply never makes the stream goroutine send on a closed channel,
+   whatever the schedule (and however often Close is attempted meanwhile) *)
+Theorem reply_channel_safe sched : q_panic (rq_run true sched) = false.
+Proof. unfold rq_run. apply rq_inv; [reflexivity|discriminate]. Qed.
+
 (* ================================================================== 3. mutex discipline *)
 Lemma wf_app a b : wf (a ++ b) -> wf b.
 Proof. induction a as [|e a IH]; cbn [app]; auto. destruct e; cbn [wf]; intros H; apply IH; tauto. Qed.
